@@ -13,7 +13,7 @@ for d in sorted(x for x in glob.glob(os.path.join(V, "seeded", "*")) if os.path.
 missed = [os.path.basename(d) for d in sorted(glob.glob(os.path.join(V, "seeded", "*"))) if "MISSED at first" in json.dumps(json.load(open(os.path.join(d, "meta.json"))).get("result", {}))]
 txt = """<!-- SEEDED-TABLE-BEGIN -->
 %d independently seeded changes (sub-agents that saw only the property text and a scratch worktree; round 1 =
-free choice, round 2 = a different function and mechanism, round 3 = scale/threshold theme, round 4 = element/key/iterator TYPE and argument-aliasing theme, round 5 = history-dependent / value-corner / less-travelled entry point / narrow interleaving window themes, round 6 = adversarial conjunctions, round 7 = a second adversarial round for ten properties after the API audit). Each was confirmed
+free choice, round 2 = a different function and mechanism, round 3 = scale/threshold theme, round 4 = element/key/iterator TYPE and argument-aliasing theme, round 5 = history-dependent / value-corner / less-travelled entry point / narrow interleaving window themes, round 6 = adversarial conjunctions, round 7 = a second adversarial round for fifteen properties after the API audit). Each was confirmed
 here in a fresh scratch worktree (compiles; the demonstration passes on the clean tree and fails with the patch;
 the existing test programs that exercise the touched code pass with the patch) before it was kept, then the
 checks were run against it (`tools/seeded_check.sh`). Initially missed: %s — each miss was a *generator domain*
